@@ -33,15 +33,16 @@ def run_unit(unit, repo='/repo', mode='partial', use_cache=True, outdir=None, ex
     so a failed obligation elsewhere is still reported. Clauses of a stubbed function are undecided, never discharged."""
     t0 = time.time()
     stub = {}
+    dropped = set()  # contracted functions whose contract no longer type-checks: dropped and inlined into their callers
     inline = {}      # R18: function -> helpers to inline at their call sites (a helper the function calls that is not under contract)
     last = None
     outdir = outdir or alt_outdir(repo)
     for attempt in range(10):
-        r = _run_once(unit, repo, mode, use_cache, outdir, extra_args, rlimit, set(stub), t0, inline)
+        r = _run_once(unit, repo, mode, use_cache, outdir, extra_args, rlimit, set(stub), t0, inline, dropped)
         if r.get('resource_limit') and not rlimit:
             # a failing (or merely slow) query ran out of the default resource budget: decide it with a four times larger one before
             # calling the unit undecided (rlimit is a deterministic z3 resource count, not wall time)
-            r2 = _run_once(unit, repo, mode, use_cache, outdir, extra_args, 40, set(stub), t0, inline)
+            r2 = _run_once(unit, repo, mode, use_cache, outdir, extra_args, 40, set(stub), t0, inline, dropped)
             if r2.get('status') == 'ok' or not r2.get('resource_limit'):
                 r = r2
         last = r
@@ -49,7 +50,16 @@ def run_unit(unit, repo='/repo', mode='partial', use_cache=True, outdir=None, ex
             break
         new = [o for o in r['frontend_owners'] if o not in stub]
         if not new:
-            break
+            # stubbing a function did not remove the error: the error is in its CONTRACT (e.g. the contract speaks about a parameter the
+            # function no longer has). Drop that function's contract and inline the function into its callers (R18), so that they are
+            # checked against what it does now; its own clauses are undecided.
+            esc = [o for o in r['frontend_owners'] if o in stub and o not in dropped]
+            if not esc:
+                break
+            for o in esc:
+                dropped.add(o)
+                del stub[o]
+            continue
         for o in new:
             why = r['frontend_owners'][o]
             mh = re.search(r'cannot find function `(\w+)` in this scope', why)
@@ -66,9 +76,9 @@ def run_unit(unit, repo='/repo', mode='partial', use_cache=True, outdir=None, ex
     return last
 
 
-def _run_once(unit, repo, mode, use_cache, outdir, extra_args, rlimit, stub, t0, inline=None):
+def _run_once(unit, repo, mode, use_cache, outdir, extra_args, rlimit, stub, t0, inline=None, dropped=None):
     try:
-        meta = asm.assemble(unit, repo, mode, outdir, stub=stub, inline=inline)
+        meta = asm.assemble(unit, repo, mode, outdir, stub=stub, inline=inline, drop=dropped)
     except asm.AssembleError as e:
         return {'status': 'undecided', 'reason': 'assemble: %s' % e, 'unit': unit, 'mode': mode, 'wall_s': time.time() - t0}
     text = open(meta['file']).read()
@@ -114,7 +124,7 @@ def _run_once(unit, repo, mode, use_cache, outdir, extra_args, rlimit, stub, t0,
             hit = None
             for sp in prim:
                 for a_, b_, f in fn_ranges:
-                    if a_ <= sp['line_start'] <= b_ and not f.get('stubbed'):
+                    if a_ <= sp['line_start'] <= b_:      # (a stubbed function still owns its contract lines: see the escalation in run_unit)
                         hit = f
                         break
                 if hit:
